@@ -70,6 +70,12 @@ def main():
         json.dump(meta, open(os.path.join(d, "meta.json"), "w"), indent=1)
         rows.append(meta)
     sh("git reset -q --hard && git clean -qfd", cwd=WT)
+    # the summary lists every refactoring evaluated so far (earlier batches included)
+    rows = []
+    for rid in sorted(os.listdir(OUT)):
+        mp = os.path.join(OUT, rid, "meta.json")
+        if os.path.exists(mp):
+            rows.append(json.load(open(mp)))
     with open(os.path.join(OUT, "SUMMARY.md"), "w") as f:
         f.write("# Behaviour-preserving refactorings (false-alarm experiment)\n\n"
                 "Written by a sub-agent that saw only the repository; each one builds and passes the pinned suite. Every quick check was run against\n"
